@@ -769,7 +769,16 @@ type sbObs struct {
 	Note   string   `json:"note,omitempty"`
 }
 
-const sbProbeTimeout = 8 * time.Second
+// sbProbeTimeout: how long a host may take over one probe before it is taken for hung (an observation that is
+// no event: a busy machine must not look like an effect, nor hide one — the control is re-run with ZV_PROBE_S=60
+// before it is called blind).
+var sbProbeTimeout = func() time.Duration {
+	n := 20
+	if v := os.Getenv("ZV_PROBE_S"); v != "" {
+		fmt.Sscanf(v, "%d", &n)
+	}
+	return time.Duration(n) * time.Second
+}()
 
 // sbMaxStack: the bound every host of this family puts on its goroutine stacks.
 const sbMaxStack = 16 << 20
